@@ -14,7 +14,7 @@ files=$(git diff --name-only | tr '\n' ' ')
 if ! go build ./... 2>/dev/null; then echo -e "$id\tDOES-NOT-BUILD\t$files"; git checkout -q -- .; exit 0; fi
 suite=ok
 for i in 1 2; do go test -vet=off -count=1 ./... >/dev/null 2>&1 || { go test -vet=off -count=1 ./... >/dev/null 2>&1 || suite=FAIL; }; done
-cp $d/zz_demo_test.go $pkgdir/zz_demo_test.go
+cp $d/zz_demo_test.go $pkgdir/zz_demo_test.go 2>/dev/null || cp $d/zz_demo_test.go.txt $pkgdir/zz_demo_test.go
 race=""; echo "$demorun" | grep -q -- "-race" && race="-race"
 ( cd $pkgdir && timeout 300 go test $race -vet=off -count=1 -run 'Demo|ZZ' . >/tmp/confirm_$id.with.log 2>&1 ) && with=PASS || with=FAIL
 git apply -R $d/patch.diff
